@@ -36,296 +36,19 @@
 (* `content` is the specification variable of the property: the map the    *)
 (* root is claimed to commit to.  Canon(content) is the unique trie for a  *)
 (* map, defined without any reference to the history.                      *)
+(*                                                                         *)
+(* The node-level operators (insert, delete, hasher, proofs, iteration)    *)
+(* and the predicates behind the invariants are in TrieOps.tla; they are   *)
+(* shared with TrieCopy.tla (two handles on shared nodes) and TrieDb.tla   *)
+(* (the reference counting node cache with several versions).              *)
 (***************************************************************************)
-EXTENDS Integers, Sequences, FiniteSets, TLC, Json
-
-CONSTANTS KeyTab,  \* <<key_1, .., key_n>>: each a sequence of nibbles of even length
-          Digits,  \* the nibble values that occur in KeyTab
-          Vals,    \* non-empty values 1..n ; 0 is the empty value / absent
-          VLen,    \* [Vals -> Nat]: byte length of the concrete value (decides embedding)
-          Limit,   \* SetCacheLimit: generations a clean node stays loaded
-          EmptyProofAsCoded  \* TRUE: VerifyProof(emptyRoot, ..) is an error (the code);
-                             \* FALSE: it confirms the absence (the property as stated)
-
-ASSUME /\ \A v \in Vals : VLen[v] \in 1..55          \* short SER strings (size formula below)
-       /\ \A i \in 1..Len(KeyTab) : Len(KeyTab[i]) % 2 = 0 /\ \A j \in 1..Len(KeyTab[i]) : KeyTab[i][j] \in Digits
-
-T      == 16                    \* terminator nibble of keybytesToHex
-NK     == Len(KeyTab)
-KIdx   == 1..NK
-Hex(i) == KeyTab[i] \o <<T>>
-Slots  == Digits \cup {T}
-Absent == 0
-Reject == 0 - 1                 \* VerifyProof returned an error
+EXTENDS TrieOps
 
 VARIABLES content,  \* [KIdx -> Vals \cup {Absent}]
           root,     \* the in-memory node tree of the open trie (Trie.root)
           synced,   \* "none" | "mem" | "disk": where the CURRENT root hash can be resolved
           last      \* action label (output only)
 vars == <<content, root, synced, last>>
-
-(* ---- sequences --------------------------------------------------------- *)
-Drop(s, n)     == SubSeq(s, n + 1, Len(s))
-Take(s, n)     == SubSeq(s, 1, n)
-IsPrefix(p, s) == Len(p) <= Len(s) /\ Take(s, Len(p)) = p
-Min(a, b)      == IF a < b THEN a ELSE b
-RECURSIVE PrefixLen(_, _)
-PrefixLen(a, b) == IF a = <<>> \/ b = <<>> \/ Head(a) # Head(b) THEN 0
-                   ELSE 1 + PrefixLen(Tail(a), Tail(b))
-\* bytes.Compare on nibble paths
-RECURSIVE SeqLess(_, _)
-SeqLess(a, b) == IF b = <<>> THEN FALSE
-                 ELSE IF a = <<>> THEN TRUE
-                 ELSE IF Head(a) # Head(b) THEN Head(a) < Head(b)
-                 ELSE SeqLess(Tail(a), Tail(b))
-
-(* ---- nodes ------------------------------------------------------------- *)
-NilN           == [t |-> "nil"]
-ValN(v)        == [t |-> "val", v |-> v]
-HashN(c)       == [t |-> "hash", h |-> c]                 \* a hash, as it occurs inside encoded nodes
-\* a hashNode held in memory; `ok` (ghost) records that the node it stands for had been
-\* written to the database when it was dropped from memory
-MemRef(c, ok)  == [t |-> "hash", h |-> c, ok |-> ok]
-NoHash         == NilN
-NewFlag        == [hc |-> NoHash, dirty |-> TRUE, age |-> 0]      \* Trie.newFlag
-LoadedFlag(c)  == [hc |-> c, dirty |-> FALSE, age |-> 0]          \* decodeNode(hash, buf, cachegen)
-ShortN(k, c, f) == [t |-> "short", key |-> k, val |-> c, f |-> f]
-FullN(ch, f)   == [t |-> "full", ch |-> ch, f |-> f]
-EmptyCh        == [s \in Slots |-> NilN]
-Inner(n)       == n.t \in {"short", "full"}
-EmptyRoot      == HashN(NilN)                                    \* emptyRoot
-
-\* The abstract tree of a node: flags stripped, hash references followed.
-RECURSIVE Abs(_)
-Abs(n) == IF n.t = "short" THEN [t |-> "short", key |-> n.key, val |-> Abs(n.val)]
-          ELSE IF n.t = "full" THEN [t |-> "full", ch |-> [s \in Slots |-> Abs(n.ch[s])]]
-          ELSE IF n.t = "hash" THEN Abs(n.h)
-          ELSE n
-
-(* ---- encoded sizes (SER = RLP; decides hash-or-embed in hasher.store) --- *)
-StrSize(n)  == IF n = 1 THEN 1 ELSE n + 1       \* single byte < 0x80 | short string
-ListSize(p) == IF p < 56 THEN p + 1 ELSE p + 2
-RECURSIVE SizeC(_), SumRef(_, _)
-\* size of the encoding of a COLLAPSED node (children: hash | embedded | value | nil)
-SizeC(c) ==
-  IF c.t = "nil" THEN 1
-  ELSE IF c.t = "val" THEN StrSize(VLen[c.v])
-  ELSE IF c.t = "hash" THEN 33
-  ELSE IF c.t = "short" THEN
-    LET nib == IF c.key[Len(c.key)] = T THEN Len(c.key) - 1 ELSE Len(c.key)
-    IN ListSize(StrSize(1 + nib \div 2) + SizeC(c.val))            \* hexToCompact
-  ELSE ListSize((16 - Cardinality(Digits)) + SumRef(c.ch, Slots))  \* 17 slots, absent = 0x80
-SumRef(ch, S) == IF S = {} THEN 0
-                 ELSE LET s == CHOOSE x \in S : TRUE IN SizeC(ch[s]) + SumRef(ch, S \ {s})
-
-(* ---- the canonical trie of a map ---------------------------------------- *)
-PairsOf(m) == {[k |-> Hex(i), v |-> m[i]] : i \in {j \in KIdx : m[j] # Absent}}
-MinLen(S)  == CHOOSE n \in {Len(e.k) : e \in S} : \A e \in S : n <= Len(e.k)
-CommonLen(S) ==
-  LET ok(n) == \A a \in S, b \in S : Take(a.k, n) = Take(b.k, n)
-  IN CHOOSE n \in 0..MinLen(S) : ok(n) /\ (n = MinLen(S) \/ ~ok(n + 1))
-RECURSIVE Build(_)
-Build(S) ==
-  IF S = {} THEN NilN
-  ELSE IF Cardinality(S) = 1 THEN
-    LET e == CHOOSE x \in S : TRUE IN [t |-> "short", key |-> e.k, val |-> ValN(e.v)]
-  ELSE
-    LET n    == CommonLen(S)
-        R    == {[k |-> Drop(e.k, n), v |-> e.v] : e \in S}
-        sub(s) == {[k |-> Tail(e.k), v |-> e.v] : e \in {x \in R : Head(x.k) = s}}
-        full == [t |-> "full",
-                 ch |-> [s \in Slots |->
-                           IF s = T
-                           THEN IF \E e \in R : e.k = <<T>>
-                                THEN ValN((CHOOSE e \in R : e.k = <<T>>).v) ELSE NilN
-                           ELSE Build(sub(s))]]
-    IN IF n = 0 THEN full
-       ELSE [t |-> "short", key |-> Take((CHOOSE e \in S : TRUE).k, n), val |-> full]
-Canon(m) == Build(PairsOf(m))
-
-\* canonical collapse of an abstract tree = what a from-scratch hasher produces
-RECURSIVE Coll(_)
-CRef(a) == IF Inner(a) THEN LET c == Coll(a) IN IF SizeC(c) < 32 THEN c ELSE HashN(c)
-           ELSE a
-Coll(a) == IF a.t = "short" THEN [t |-> "short", key |-> a.key, val |-> CRef(a.val)]
-           ELSE [t |-> "full", ch |-> [s \in Slots |-> CRef(a.ch[s])]]
-RootOf(a)    == IF a = NilN THEN EmptyRoot ELSE HashN(Coll(a))
-CanonRoot(m) == RootOf(Canon(m))      \* THE commitment: a function of the map only
-
-(* ---- resolving from the database (database.go node/expandNode, decodeNode) *)
-RECURSIVE LoadEmb(_)
-LoadEmb(c) == IF c.t = "short" THEN ShortN(c.key, LoadEmb(c.val), LoadedFlag(NoHash))
-              ELSE IF c.t = "full" THEN FullN([s \in Slots |-> LoadEmb(c.ch[s])], LoadedFlag(NoHash))
-              ELSE IF c.t = "hash" THEN MemRef(c.h, TRUE)   \* stored before its parent was
-              ELSE c                                        \* value | nil
-Load(c) == IF c.t = "short" THEN ShortN(c.key, LoadEmb(c.val), LoadedFlag(c))
-           ELSE FullN([s \in Slots |-> LoadEmb(c.ch[s])], LoadedFlag(c))
-Resolve(n) == IF n.t = "hash" THEN Load(n.h) ELSE n
-
-(* ---- TryGet (tryGet: resolved nodes are kept, path generations refreshed) *)
-RECURSIVE TryGet(_, _)
-TryGet(n, key) ==
-  IF n.t = "nil" THEN [v |-> Absent, n |-> n, r |-> FALSE]
-  ELSE IF n.t = "val" THEN [v |-> n.v, n |-> n, r |-> FALSE]
-  ELSE IF n.t = "short" THEN
-    IF ~IsPrefix(n.key, key) THEN [v |-> Absent, n |-> n, r |-> FALSE]
-    ELSE LET s == TryGet(n.val, Drop(key, Len(n.key)))
-         IN [v |-> s.v, r |-> s.r,
-             n |-> IF s.r THEN [n EXCEPT !.val = s.n, !.f.age = 0] ELSE n]
-  ELSE IF n.t = "full" THEN
-    LET s == TryGet(n.ch[Head(key)], Tail(key))
-    IN [v |-> s.v, r |-> s.r,
-        n |-> IF s.r THEN [n EXCEPT !.ch[Head(key)] = s.n, !.f.age = 0] ELSE n]
-  ELSE LET s == TryGet(Load(n.h), key) IN [v |-> s.v, n |-> s.n, r |-> TRUE]
-
-(* ---- insert (trie.go insert; `val` is a node: a value or a moved subtree) *)
-RECURSIVE Insert(_, _, _)
-Insert(n, key, val) ==
-  IF key = <<>> THEN
-    IF n.t = "val" THEN [d |-> n # val, n |-> val] ELSE [d |-> TRUE, n |-> val]
-  ELSE IF n.t = "short" THEN
-    LET m == PrefixLen(key, n.key) IN
-    IF m = Len(n.key) THEN
-      LET r == Insert(n.val, Drop(key, m), val)
-      IN IF ~r.d THEN [d |-> FALSE, n |-> n]
-         ELSE [d |-> TRUE, n |-> ShortN(n.key, r.n, NewFlag)]
-    ELSE
-      LET branch == FullN([EmptyCh EXCEPT
-                             ![n.key[m + 1]] = Insert(NilN, Drop(n.key, m + 1), n.val).n,
-                             ![key[m + 1]]   = Insert(NilN, Drop(key, m + 1), val).n], NewFlag)
-      IN [d |-> TRUE, n |-> IF m = 0 THEN branch ELSE ShortN(Take(key, m), branch, NewFlag)]
-  ELSE IF n.t = "full" THEN
-    LET r == Insert(n.ch[Head(key)], Tail(key), val)
-    IN IF ~r.d THEN [d |-> FALSE, n |-> n]
-       ELSE [d |-> TRUE, n |-> FullN([n.ch EXCEPT ![Head(key)] = r.n], NewFlag)]
-  ELSE IF n.t = "nil" THEN [d |-> TRUE, n |-> ShortN(key, val, NewFlag)]
-  ELSE \* hashNode: load it and insert into it
-    LET rn == Load(n.h)
-        r  == Insert(rn, key, val)
-    IN IF ~r.d THEN [d |-> FALSE, n |-> rn] ELSE r
-
-(* ---- delete (trie.go delete: keeps the trie in normal form) ------------- *)
-RECURSIVE Delete(_, _)
-Delete(n, key) ==
-  IF n.t = "short" THEN
-    LET m == PrefixLen(key, n.key) IN
-    IF m < Len(n.key) THEN [d |-> FALSE, n |-> n]
-    ELSE IF m = Len(key) THEN [d |-> TRUE, n |-> NilN]
-    ELSE
-      LET r == Delete(n.val, Drop(key, Len(n.key)))
-      IN IF ~r.d THEN [d |-> FALSE, n |-> n]
-         ELSE IF r.n.t = "short"   \* merge: never shortNode{.., shortNode{..}}
-              THEN [d |-> TRUE, n |-> ShortN(n.key \o r.n.key, r.n.val, NewFlag)]
-              ELSE [d |-> TRUE, n |-> ShortN(n.key, r.n, NewFlag)]
-  ELSE IF n.t = "full" THEN
-    LET r == Delete(n.ch[Head(key)], Tail(key)) IN
-    IF ~r.d THEN [d |-> FALSE, n |-> n]
-    ELSE
-      LET ch2  == [n.ch EXCEPT ![Head(key)] = r.n]
-          live == {s \in Slots : ch2[s] # NilN}
-      IN IF Cardinality(live) = 1 THEN      \* reduce the full node to a short node
-           LET pos == CHOOSE s \in live : TRUE IN
-           IF pos # T THEN
-             LET cn == Resolve(ch2[pos])
-             IN IF cn.t = "short"
-                THEN [d |-> TRUE, n |-> ShortN(<<pos>> \o cn.key, cn.val, NewFlag)]
-                ELSE [d |-> TRUE, n |-> ShortN(<<pos>>, ch2[pos], NewFlag)]
-           ELSE [d |-> TRUE, n |-> ShortN(<<pos>>, ch2[pos], NewFlag)]
-         ELSE [d |-> TRUE, n |-> FullN(ch2, NewFlag)]
-  ELSE IF n.t = "val" THEN [d |-> TRUE, n |-> NilN]
-  ELSE IF n.t = "nil" THEN [d |-> FALSE, n |-> NilN]
-  ELSE
-    LET rn == Load(n.h)
-        r  == Delete(rn, key)
-    IN IF ~r.d THEN [d |-> FALSE, n |-> rn] ELSE r
-
-(* ---- hasher.hash / hashChildren / store --------------------------------- *)
-\* returns [h |-> what the parent encodes (hash | embedded collapsed node | value | nil),
-\*          c |-> the node kept in memory (hash cached, dirty cleared on commit, or unloaded)]
-RECURSIVE HashStep(_, _, _)
-HashStep(n, commit, force) ==
-  IF n.t = "hash" THEN [h |-> HashN(n.h), c |-> n]
-  ELSE IF ~Inner(n) THEN [h |-> n, c |-> n]
-  ELSE IF n.f.hc # NoHash /\ ~commit THEN [h |-> HashN(n.f.hc), c |-> n]
-  ELSE IF n.f.hc # NoHash /\ ~n.f.dirty /\ n.f.age >= Limit      \* canUnload
-       THEN [h |-> HashN(n.f.hc), c |-> MemRef(n.f.hc, ~n.f.dirty)]
-  ELSE IF n.f.hc # NoHash /\ ~n.f.dirty THEN [h |-> HashN(n.f.hc), c |-> n]
-  ELSE
-    LET kid  == IF n.t = "short" THEN HashStep(n.val, commit, FALSE) ELSE [h |-> NilN, c |-> NilN]
-        kids == IF n.t = "full" THEN [s \in Slots |-> HashStep(n.ch[s], commit, FALSE)]
-                ELSE [s \in Slots |-> [h |-> NilN, c |-> NilN]]
-        coll == IF n.t = "short" THEN [t |-> "short", key |-> n.key, val |-> kid.h]
-                ELSE [t |-> "full", ch |-> [s \in Slots |-> kids[s].h]]
-        big  == force \/ SizeC(coll) >= 32
-        hc2  == IF ~big THEN NoHash ELSE IF n.f.hc # NoHash THEN n.f.hc ELSE coll
-        f2   == [hc |-> hc2, dirty |-> IF commit THEN FALSE ELSE n.f.dirty, age |-> n.f.age]
-        mem  == IF n.t = "short" THEN ShortN(n.key, kid.c, f2)
-                ELSE FullN([s \in Slots |-> kids[s].c], f2)
-    IN [h |-> IF big THEN HashN(hc2) ELSE coll, c |-> mem]
-
-RootHash(n) == IF n = NilN THEN EmptyRoot ELSE HashStep(n, FALSE, TRUE).h   \* Trie.Hash()
-
-RECURSIVE AgeAll(_)       \* Commit: cachegen++
-AgeAll(n) == IF n.t = "short"
-             THEN [n EXCEPT !.val = AgeAll(n.val), !.f.age = Min(n.f.age + 1, Limit)]
-             ELSE IF n.t = "full"
-             THEN [n EXCEPT !.ch = [s \in Slots |-> AgeAll(n.ch[s])], !.f.age = Min(n.f.age + 1, Limit)]
-             ELSE n
-
-(* ---- proofs (proof.go) --------------------------------------------------- *)
-\* the nodes Prove walks over (hash nodes are resolved, the trie is not modified)
-RECURSIVE PathNodes(_, _)
-PathNodes(n, key) ==
-  IF key = <<>> \/ n.t = "nil" \/ n.t = "val" THEN <<>>
-  ELSE IF n.t = "short" THEN
-    IF IsPrefix(n.key, key) THEN <<n>> \o PathNodes(n.val, Drop(key, Len(n.key))) ELSE <<n>>
-  ELSE IF n.t = "full" THEN <<n>> \o PathNodes(n.ch[Head(key)], Tail(key))
-  ELSE PathNodes(Load(n.h), key)
-\* hashChildren + store(.., false): the collapsed node and whether it is a proof element
-Collapsed(n) == IF n.t = "short" THEN [t |-> "short", key |-> n.key, val |-> HashStep(n.val, FALSE, FALSE).h]
-                ELSE [t |-> "full", ch |-> [s \in Slots |-> HashStep(n.ch[s], FALSE, FALSE).h]]
-ProofSet(n, key) ==
-  LET p == PathNodes(n, key)
-  IN {Collapsed(p[i]) : i \in {j \in 1..Len(p) : j = 1 \/ SizeC(Collapsed(p[j])) >= 32}}
-\* proof.go get(): walk inside one decoded proof node
-RECURSIVE VGet(_, _)
-VGet(c, key) ==
-  IF c.t = "short" THEN
-    IF IsPrefix(c.key, key) THEN VGet(c.val, Drop(key, Len(c.key))) ELSE [k |-> <<>>, n |-> NilN]
-  ELSE IF c.t = "full" THEN VGet(c.ch[Head(key)], Tail(key))
-  ELSE [k |-> key, n |-> c]
-\* VerifyProof over a content-addressed proof db P (node c is stored under HashN(c))
-RECURSIVE Verify(_, _, _)
-Verify(want, key, P) ==
-  IF want.h \notin P THEN Reject
-  ELSE LET r == VGet(want.h, key)
-       IN IF r.n.t = "nil" THEN Absent
-          ELSE IF r.n.t = "val" THEN r.n.v
-          ELSE Verify(r.n, r.k, P)
-
-(* ---- iteration (iterator.go): leaves in the order of their nibble paths --- *)
-\* The terminator 16 is larger than every nibble, so a key that is a proper
-\* prefix of other keys is enumerated AFTER them (libs/trie/iterator_test.go
-\* testdata1 fixes exactly this order); on prefix-free key sets this is the
-\* bytewise order.
-PathLess(i, j) == SeqLess(Hex(i), Hex(j))
-RECURSIVE Sorted(_)
-Sorted(S) == IF S = {} THEN <<>>
-             ELSE LET x == CHOOSE a \in S : \A b \in S \ {a} : PathLess(a, b)
-                  IN <<x>> \o Sorted(S \ {x})
-\* nodeIterator.seek(start): first path >= hex(start) without terminator; 0 = nil start
-IterFrom(m, s) == Sorted({i \in KIdx : m[i] # Absent /\ (s = 0 \/ ~SeqLess(Hex(i), KeyTab[s]))})
-\* what a walk over the actual node tree yields (children 0..15 first, then slot 16)
-RECURSIVE Leaves(_, _)
-Leaves(a, path) ==
-  IF a.t = "nil" THEN <<>>
-  ELSE IF a.t = "val" THEN <<[p |-> path, v |-> a.v]>>
-  ELSE IF a.t = "short" THEN Leaves(a.val, path \o a.key)
-  ELSE LET RECURSIVE Over(_)
-           Over(S) == IF S = {} THEN <<>>
-                      ELSE LET s == CHOOSE x \in S : \A y \in S : x <= y
-                           IN Leaves(a.ch[s], path \o <<s>>) \o Over(S \ {s})
-       IN Over(Slots)
 
 (* ---- the system ----------------------------------------------------------- *)
 Init == /\ content = [i \in KIdx |-> Absent]
@@ -380,10 +103,7 @@ Reopen(fresh) ==         \* trie.New(root, db) on the same / on a new Database o
   /\ UNCHANGED <<content, synced>>
   /\ last' = [op |-> IF fresh THEN "reopendisk" ELSE "reopen"]
 
-\* Deviation of the code, named: the empty trie has no node, Prove emits nothing and
-\* VerifyProof fails with "proof node 0 missing" instead of confirming the absence.
-ProofResult(i) == IF root = NilN THEN (IF EmptyProofAsCoded THEN Reject ELSE Absent)
-                  ELSE Verify(RootHash(root), Hex(i), ProofSet(root, Hex(i)))
+ProofResult(i) == ProofResultP(root, i)
 Prove(i) ==
   /\ UNCHANGED <<content, root, synced>>
   /\ last' = [op |-> "prove", k |-> i, res |-> ProofResult(i),
@@ -400,92 +120,29 @@ Next == \/ \E i \in KIdx : \/ \E v \in Vals \cup {Absent} : Update(i, v)
 
 Spec == Init /\ [][Next]_vars
 
-(* ---- what TLC checks ------------------------------------------------------ *)
-RECURSIVE NodesOf(_)      \* all in-memory inner nodes
-NodesOf(n) == IF n.t = "short" THEN {n} \cup NodesOf(n.val)
-              ELSE IF n.t = "full" THEN {n} \cup UNION {NodesOf(n.ch[s]) : s \in Slots}
-              ELSE {}
-RECURSIVE HashesOf(_)     \* all hash references held in memory
-HashesOf(n) == IF n.t = "short" THEN HashesOf(n.val)
-               ELSE IF n.t = "full" THEN UNION {HashesOf(n.ch[s]) : s \in Slots}
-               ELSE IF n.t = "hash" THEN {n} ELSE {}
-
+(* ---- what TLC checks (the predicates are defined in TrieOps) ---------------- *)
 TypeOK == /\ content \in [KIdx -> Vals \cup {Absent}]
           /\ synced \in {"none", "mem", "disk"}
           /\ \A n \in NodesOf(root) : n.f.age \in 0..Limit /\ n.f.dirty \in BOOLEAN
 
-\* (1) canonical form: the node tree is THE trie of the content, whatever the history
-Canonical == Abs(root) = Canon(content)
-\* (2) canonical commitment: what Hash() returns now (trusting every cached hash and
-\*     every hash reference, as the code does) is a function of the content only
-RootCanonical == RootHash(root) = CanonRoot(content)
-\* (3) cached hashes are never stale; hash references point at canonically collapsed nodes
-CacheCoherent == /\ \A n \in NodesOf(root) : n.f.hc # NoHash => n.f.hc = Coll(Abs(n))
-                 /\ \A h \in HashesOf(root) : h.h = Coll(Abs(h))
-\* (4) flag discipline the hasher relies on: nothing dirty below a clean node (it would
-\*     never be written), a clean node that is stored by hash has its hash cached
-RECURSIVE DirtyClosed(_, _)
-DirtyClosed(n, underClean) ==
-  IF ~Inner(n) THEN TRUE
-  ELSE /\ underClean => ~n.f.dirty
-       /\ IF n.t = "short" THEN DirtyClosed(n.val, ~n.f.dirty)
-          ELSE \A s \in Slots : DirtyClosed(n.ch[s], ~n.f.dirty)
-FlagsOK == /\ DirtyClosed(root, FALSE)
-           /\ \A n \in NodesOf(root) : (~n.f.dirty /\ SizeC(Coll(Abs(n))) >= 32) => n.f.hc # NoHash
-           /\ synced # "none" => (Inner(root) => ~root.f.dirty)
-\* (4b) whatever was dropped from memory can be resolved again: it had been written
-Resolvable == \A h \in HashesOf(root) : h.ok
-\* (5) normal form, stated directly (implied by Canonical; kept as a readable lemma)
-NormalForm ==
-  \A n \in NodesOf(root) :
-     IF n.t = "short" THEN n.key # <<>> /\ n.val.t # "nil" /\ Resolve(n.val).t # "short"
-                           /\ (n.val.t = "val" <=> n.key[Len(n.key)] = T)
-     ELSE Cardinality({s \in Slots : n.ch[s] # NilN}) >= 2 /\ n.ch[T].t \in {"nil", "val"}
-\* (6) lookups return the last written value
-GetOK == \A i \in KIdx : TryGet(root, Hex(i)).v = content[i]
-\* (7) proofs: complete and sound for presence and absence; with EmptyProofAsCoded the
-\*     empty trie is exempted (the harness reports that case on the real code)
-ProofOK == (EmptyProofAsCoded /\ root = NilN) \/ \A i \in KIdx : ProofResult(i) = content[i]
-\* (8) single-node tampering: replacing or dropping one proof node, by any node of any
-\*     other proof of this trie or by an edited copy, never changes the claim
-\*     (the proof nodes are a function of the content by (1)-(3), which hold in every state;
-\*     the battery is therefore evaluated once per content: right after the update that
-\*     produced it, when the root is new and nothing is cached)
-Edits(c) ==
-  IF c.t = "short"
-  THEN {[c EXCEPT !.val = x] : x \in {NilN} \cup {ValN(v) : v \in Vals}}
-       \cup {[c EXCEPT !.key = [c.key EXCEPT ![j] = d]] :
-               j \in {x \in 1..Len(c.key) : c.key[x] # T}, d \in Digits}
-  ELSE {[c EXCEPT !.ch[s] = x] : s \in Slots, x \in {NilN} \cup {ValN(v) : v \in Vals}}
-AllProofNodes == UNION {ProofSet(root, Hex(i)) : i \in KIdx}
-TamperOK ==
-  (Inner(root) /\ root.f.dirty /\ root.f.hc = NoHash) =>
-    \A i \in KIdx :
-      LET P == ProofSet(root, Hex(i))
-          R == RootHash(root)
-      IN \A c \in P :
-           /\ Verify(R, Hex(i), P \ {c}) \in {Reject, content[i]}
-           /\ \A x \in (AllProofNodes \cup Edits(c)) \ {c} :
-                Verify(R, Hex(i), (P \ {c}) \cup {x}) \in {Reject, content[i]}
-\* (9) iteration: the leaves of the node tree are exactly the content, in path order
-IterOK ==
-  LET ls == Leaves(Abs(root), <<>>)
-      ks == IterFrom(content, 0)
-  IN /\ Len(ls) = Len(ks)
-     /\ \A j \in 1..Len(ks) : ls[j].p = Hex(ks[j]) /\ ls[j].v = content[ks[j]]
-     /\ \A j \in 1..Len(ls) - 1 : SeqLess(ls[j].p, ls[j + 1].p)
+Canonical     == CanonicalP(root, content)          \* (1) the node tree is THE trie of the content
+RootCanonical == RootCanonicalP(root, content)      \* (2) Hash() is a function of the content only
+CacheCoherent == CacheCoherentP(root)               \* (3) cached hashes are never stale
+FlagsOK       == /\ FlagsP(root)                    \* (4) flag discipline of the hasher
+                 /\ synced # "none" => (Inner(root) => ~root.f.dirty)
+Resolvable    == ResolvableP(root)                  \* (4b) unloaded nodes had been written
+NormalForm    == NormalFormP(root)                  \* (5)
+GetOK         == GetP(root, content)                \* (6) lookups return the last written value
+ProofOK       == ProofP(root, content)              \* (7) proofs complete and sound
+TamperOK      == TamperP(root, content)             \* (8) single-node tampering
+IterOK        == IterP(root, content)               \* (9) iteration = content in path order
 \* (10) reopening and reading never change the content or the commitment
 Stable == [][ last'.op \in {"get", "hash", "commit", "flush", "reopen", "reopendisk", "prove", "iter"}
               => content' = content /\ RootHash(root') = RootHash(root) ]_vars
 
 (* ---- export for the replay harness ----------------------------------------- *)
 Proj(m, sy, rs) == [c |-> m, sy |-> sy, rs |-> rs]
-RootStatusOf(r) == IF r = NilN THEN "nil"
-                   ELSE IF r.t = "hash" THEN "unloaded"
-                   ELSE IF r.f.dirty THEN (IF r.f.hc = NoHash THEN "new" ELSE "hashed")
-                   ELSE "clean"
 Edge == PrintT(ToJson([from |-> Proj(content, synced, RootStatusOf(root)), act |-> last',
                        to |-> Proj(content', synced', RootStatusOf(root'))]))
-Meta == PrintT(ToJson([meta |-> [keys |-> KeyTab, vlen |-> [v \in Vals |-> VLen[v]], limit |-> Limit]]))
 View == <<content, root, synced>>
 =============================================================================
